@@ -127,11 +127,149 @@ let holds_c41 (case : string) (impl : string) : string =
   | ("ERR", _) :: _ -> "ok"
   | _ -> "fail driver:" ^ (match words impl with x :: y :: _ -> x ^ "-" ^ y | x :: _ -> x | [] -> "empty")
 
+
+(* ------------------------------------------------------------------------------------------------------------------ *)
+(* C56 *)
+
+let bump_opts_of_case (case : string) : (string * string) list =
+  let w = words case in
+  let rec after_b = function [] -> [] | "B" :: t -> t | _ :: t -> after_b t in
+  kv (after_b w)
+
+let parse_oouts (l : string list) : Model.oout list =
+  List.map (fun o -> match split ':' o with
+      | v :: spk :: mine :: chg :: _ ->
+        { Model.oo_out = { Model.to_value = z_of_string v; Model.to_spk = bytes_of_hex spk; Model.to_mine = b01 mine };
+          Model.oo_change = b01 chg }
+      | _ -> failwith "oout") l
+
+let refusal_name = function
+  | Model.RWalletDesc -> ("INVALID_PARAMETER", "descendants-in-the-wallet")
+  | Model.RMempoolDesc -> ("INVALID_PARAMETER", "descendants-in-the-mempool")
+  | Model.RMined -> ("WALLET_ERROR", "has-been-mined")
+  | Model.RAlreadyBumped -> ("WALLET_ERROR", "cannot-bump-transaction")
+  | Model.RNotMine -> ("WALLET_ERROR", "inputs-that-don-t")
+  | Model.RNoRecipient -> ("INVALID_PARAMETER", "must")
+  | Model.ROptions -> ("INVALID_PARAMETER", "the-options-outputs")
+  | Model.ROciRange -> ("INVALID_PARAMETER", "change-position-is-out")
+  | Model.RInputsSpent -> ("MISC_ERROR", "is-already-spent")
+
+let contains (s : string) (sub : string) : bool =
+  try ignore (Str.search_forward (Str.regexp_string sub) s 0); true with Not_found -> false
+
+let holds_c56 (case : string) (impl : string) : string =
+  let secs = sections impl in
+  match secs with
+  | ("NA", _) :: _ -> "na"
+  | ((("OK" | "ERR") as st), h) :: _ ->
+    let ids = ref [] in
+    let sec k = try List.assoc k secs with Not_found -> [] in
+    let hkv = kv h in
+    (* the wallet's coin table (names -> ids shared with inputs) *)
+    let coins = List.mapi (fun i c -> match split ':' c with
+        | name :: v :: depth :: imm :: locked :: spent :: trusted :: inmp :: _ty :: rest ->
+          ids := (name, i) :: !ids;
+          { Model.wc_id = z_of_int i; Model.wc_value = z_of_string v; Model.wc_depth = z_of_string depth;
+            Model.wc_immature = b01 imm; Model.wc_locked = b01 locked; Model.wc_spent = b01 spent;
+            Model.wc_trusted = b01 trusted; Model.wc_inmempool = b01 inmp;
+            Model.wc_replace = (match rest with r :: _ -> b01 r | [] -> false) }
+        | _ -> failwith "coin") (sec "COINS") in
+    let ekv = kv (sec "ENV") in
+    let chgspk = bytes_of_hex (get "chgspk" ekv) in
+    let e = { Model.e_relay_min = getz "relay" ekv; Model.e_dust_rate = getz "dust" ekv; Model.e_mempool_min = getz "mpmin" ekv;
+              Model.e_min_fee = getz "minfee" ekv; Model.e_fallback = getz "fallback" ekv; Model.e_discard = getz "discard" ekv;
+              Model.e_max_fee = getz "maxfee" ekv; Model.e_spend_zc = b01 (get "zc" ekv);
+              Model.e_chg_spk = chgspk; Model.e_chg_spend = getz "chgspend" ekv } in
+    let incr = getz "incr" ekv in
+    let tx_ins l = List.map (fun i -> match split ':' i with
+        | name :: v :: isz :: _ -> { Model.ti_id = id_of ids name; Model.ti_value = z_of_string v; Model.ti_size = z_of_string isz }
+        | _ -> failwith "in") l in
+    let o = { Model.o_ins = tx_ins (sec "OIN"); Model.o_outs = parse_oouts (sec "OOUT"); Model.o_vsize = getz "ovsize" hkv } in
+    let bo = bump_opts_of_case case in
+    let b = { Model.b_feerate = (match opt "fr" bo with Some v -> Some (z_of_string v) | None -> None);
+              Model.b_new_outs = parse_oouts (sec "NEWOUTS");
+              Model.b_oci = (match sec "OCI" with [ "-" ] | [] -> None | v :: _ -> Some (nat_of_int (int_of_string v)));
+              Model.b_require_mine = (match opt "rm" bo with Some "0" -> false | _ -> true) } in
+    (* the `out=` option may have produced an empty list (all specs dropped): the code then keeps the original outputs *)
+    let f = { Model.f_wallet_spend = b01 (get "hasws" hkv); Model.f_mempool_desc = b01 (get "mpdesc" hkv);
+              Model.f_depth = getz "depth" hkv; Model.f_replaced = b01 (get "replaced" hkv);
+              Model.f_all_mine = b01 (get "allmine" hkv); Model.f_inputs_unspent = b01 (get "incoins" hkv) } in
+    let wsame = get "wsame" hkv = "1" in
+    let expected = Model.expected_refusal o b f in
+    if st = "ERR" then begin
+      let code = (match h with c :: _ -> c | [] -> "?") and msg = (match h with _ :: m :: _ -> m | _ -> "?") in
+      if not wsame then "fail refused-but-wallet-changed"
+      else match expected with
+        | Some r -> let (c, m) = refusal_name r in
+          if c = code && contains msg m then "ok" else "fail refusal-differs-from-model:" ^ c ^ "/" ^ m
+        | None ->
+          (* bumpable: only CheckFeeRate (explicit feerate) or CreateTransaction itself may refuse *)
+          (match b.Model.b_feerate, opt "cfsize" ekv with
+           | Some r, Some sz ->
+             let v = Model.check_fee_rate e incr r (z_of_string sz) (Model.o_fee o) (getz "cfbump" ekv) in
+             let exp = (match v with
+                 | Model.FrOk -> "unable-to-create-transaction"
+                 | Model.FrBelowMempoolMin -> "new-fee-rate"
+                 | Model.FrInsufficient -> "insufficient-total-fee"
+                 | Model.FrBelowRequired -> "cannot-be-less"
+                 | Model.FrAboveMax -> "specified-or-calculated-fee") in
+             if contains msg exp || (v = Model.FrBelowRequired && contains msg "insufficient-total-fee") then "ok"
+             else "fail checkfeerate-differs-from-model:" ^ exp
+           | _ -> if contains msg "unable-to-create-transaction" then "ok" else "fail unexpected-refusal:" ^ msg)
+    end else begin
+      match expected with
+      | Some r -> "fail bumped-an-unbumpable-transaction:" ^ snd (refusal_name r)
+      | None ->
+        let n_ins = tx_ins (sec "IN") in
+        let n_outs = List.map (fun x -> x.Model.oo_out) (parse_oouts (sec "OUT")) in
+        let n = { Model.n_ins = n_ins; Model.n_outs = n_outs; Model.n_fee = getz "newfee" hkv; Model.n_old_fee = getz "oldfee" hkv;
+                  Model.n_vsize = getz "vsize" hkv; Model.n_max_vsize = getz "mvs" hkv; Model.n_bump = getz "bump" hkv } in
+        (match Model.bump_split o b with
+         | None -> "fail model-split"
+         | Some (dest, rcps) ->
+           let rate = Model.new_rate e incr o b dest rcps in
+           let rq = Model.bump_request o rate dest rcps in
+           let cands = Model.cp_candidates n in
+           let good = List.filter (fun cp -> Model.valid_funding coins e rq (Model.as_result n cp)) cands in
+           let explicit = b.Model.b_feerate <> None in
+           let orig_had_change = List.exists (fun x -> x.Model.oo_change) o.Model.o_outs in
+           let pays = Model.ck_pays_increment incr o n in
+           let checks = [
+             "wallet-changed-by-creation", wsame;
+             "rate-model", (string_of_z rate = get "nrate" ekv);
+             "change-script-model", (match dest with Some d -> hex_of_bytes d = get "chgspk" ekv | None -> true);
+             "original-input-dropped", Model.ck_inputs_kept o n;
+             (if b.Model.b_new_outs <> [] && Z.lt (zt_of_z n.Model.n_vsize) (zt_of_z o.Model.o_vsize)
+              then "bump-underpays-with-smaller-outputs:"
+              else if explicit && orig_had_change && List.length n_outs < List.length (Model.base_outs o b)
+              then "bump-underpays-after-change-dropped:" else "underpays-old-fee-plus-increment"), pays;
+             "not-a-valid-funding", (good <> []);
+             "mempool-rejects-replacement", (get "tma" hkv = "ok" || not pays);
+             "commit", (match get "committed" hkv with "-" -> true | c -> c = "ok,1,0,1,-") ] in
+           (match good with
+            | [] ->
+              (* name the clauses that fail for the most plausible change position *)
+              let detail cp = let res = Model.as_result n cp in
+                first_failure [ "inputs-distinct", Model.ck_inputs_distinct res; "input-not-allowed", Model.ck_inputs_allowed coins e rq res;
+                                "preset-unused", Model.ck_presets_used rq res; "value-conservation", Model.ck_conservation res;
+                                "recipient-amounts", Model.ck_recipients rq res; "sffo-amount", Model.ck_sffo_amount e rq res;
+                                "dust-output", Model.ck_no_dust e res; "change-output", Model.ck_change e rq res;
+                                "sizes", Model.ck_sizes res; "rate", Model.ck_rate e rq; "fee", Model.ck_fee e rq res ] in
+              let ds = List.map detail cands in
+              let best = List.fold_left (fun a d -> if String.length d < String.length a then d else a) (List.hd ds) ds in
+              let r = first_failure checks in
+              if r = "ok" then best else r ^ "[" ^ best ^ "]"
+            | _ ->
+              let r = first_failure checks in
+              if r = "ok" && not (Model.valid_bump coins e incr o b f n) then "fail checker-inconsistent" else r))
+    end
+  | _ -> "fail driver:" ^ (match words impl with x :: y :: _ -> x ^ "-" ^ y | x :: _ -> x | [] -> "empty")
+
 let model _args _line = "*"
 
 let holds args case impl =
   match args with
-  | "C56" :: _ -> "fail c56-not-implemented"
+  | "C56" :: _ -> holds_c56 case impl
   | _ -> holds_c41 case impl
 
 let () = main_loop ~model ~holds
